@@ -3,7 +3,7 @@ import TenpyModel.C01.B2_Comb5
 C01 part B2 — part 6: `combineRow` in terms of the axis descriptions (`cSpecs`), the legs of the result axis by
 axis, the standard-form predicate `StdForm`, and the main theorem `combine_places`.
 -/
-namespace TenpyModel.C01B2
+namespace TenpyModel.C01B2.Comb
 open TenpyModel.Core TenpyModel.C01B
 
 variable {α : Type}
@@ -281,4 +281,4 @@ theorem combine_places (a r : Arr α) (ha : a.WF) (cl : List (List Nat)) (newAxe
     (by rw [hqd, hdt]; exact zip_map_same _ _ _) idx hi
 
 end zero
-end TenpyModel.C01B2
+end TenpyModel.C01B2.Comb
